@@ -10,8 +10,8 @@ RULE = (
     "and >=3 edges; distinct = canonical (sorted) node/edge lists + query arguments"
 )
 BUDGET = {
-    "quick": {"workers": 16, "cases": 140, "secs": 40, "min_cases": 800},
-    "thorough": {"workers": 16, "rounds": 4, "cases": 500, "secs": 200, "min_cases": 10000},
+    "quick": {"workers": 16, "cases": 1000, "secs": 60, "min_cases": 8000},
+    "thorough": {"workers": 16, "rounds": 4, "cases": 2600, "secs": 420, "min_cases": 83200},
 }
 ANCHORS = [
     "circuit:Circuit.fanin",
